@@ -5,6 +5,8 @@ import json, os, subprocess
 ROOT = os.path.dirname(os.path.dirname(os.path.abspath(__file__)))
 
 CLAIMED = {
+ "C04": ("4 (C04)", "seeded histories with bit-flip injection on in-flight DF11/17/18 squitters (all 1-bit, all 2-bit, all (start,len<=24) bursts enumerated round-robin by run index, heavy random) at chosen history points; oracle: table bit-for-bit unchanged incl. time stamps and no counter/output effect whenever the reference CRC-24 syndrome demands rejection; IID-only DF11 must be applied"),
+ "C13": ("4 (C13)", "seeded differential simulation: a junk-laden stream (file or TCP, arbitrary read boundaries) against its accepted subsequence replayed at identical simulated processing times; oracle: identical tables (all fields, time stamps included) after every accepted group and at the end; reader consumed the whole stream"),
  "C01": ("4 (C01)", "seeded hostile line histories x option vectors x feed faults (chunking, EINTR, resets, EOF mid-line, clock ticks and jumps) in two build profiles (overflow checks on / release-like); oracle: no panic, no wedge, file source returns Ok after EOF, sentinel frame after hostile input is applied"),
 }
 TECH = "deterministic simulation with fault injection: seeded search over event scripts (arrivals, channel and feed faults, simulated clock) executed against the real reader thread through clock / transport / stdout seams; invariants after every event and reference-model checks over the recorded history; minimised replay files"
